@@ -823,9 +823,14 @@ class Driver:
                         model.bump("gap-between-ops")
                         continue
                     elif k == "ns":
-                        if not model.executing or spec.auto:
+                        if spec.auto or (not model.executing and (spec.must_finish(op[1]) or model.requested)):
                             model.bump("skipped-op")
                             continue
+                        if not model.executing:
+                            # a state pre-selected from outside on a stopped machine (as tests/test_magicbot_sm.py does):
+                            # without engage() it must not run; current_state names it until the next iteration
+                            model.bump("external-next_state-while-stopped")
+                            model.left_selected = op[1]
                         m.next_state(getattr(type(m), op[1]) if case.get("objrefs") else op[1])
                         model.op_next_state(op[1])
                     elif k == "dur":
@@ -1200,6 +1205,10 @@ def decode_sm_case(code, profile):
             pre.append(["ns", names[tgt % len(names)]])
         elif 24 <= extra <= 31 and t0_c == 4 and cname_c == 0:
             pre.insert(0, ["busy", extra % 2 == 0])
+        elif extra in (24, 25, 26):
+            pre.append(["ns", names[tgt % len(names)]])  # (a no-op for the driver unless the machine runs or is stopped and not requested)
+        elif extra in (27, 28):
+            pre = [["engage"], ["done" if extra == 27 else "on_disable"]]  # a request that is withdrawn before the iteration
         elif extra in (32, 33) and pre:
             pre.append(["gap", [1, 5_000, 15_000, 20_000, 100_000][pos]])
         elif extra in (34, 35) and timed:
@@ -1304,7 +1313,7 @@ class SMLab(Lab):
     assumptions = (
         "the HAL simulator's paused FPGA clock is what magicbot.state_machine.getTime reads",
         "SpecSM (vf/labs/sm_lab.py) is the reading of C01-C04/C13; where the statements are silent it is don't-care and follows the implementation",
-        "domain restrictions of DESIGN.md 3.1 / D.5: one action per state invocation (autonomous machines also done() followed by next_state()/next_state_now()), the default state is never a transition target, next_state() from outside only while executing, no two different engage(initial_state=..) before one execute()",
+        "domain restrictions of DESIGN.md 3.1 / D.5: one action per state invocation (plus done() followed by next_state()/next_state_now(), and two next_state_now() calls), the default state is never a transition target, next_state() from outside while the machine runs or - for targets that are not must_finish - while it is stopped and nothing is requested, no two different engage(initial_state=..) before one execute() where the statement is ambiguous",
     )
 
     def setup(self):
